@@ -1,1 +1,363 @@
-/- C15: property theorems (not built yet). -/
+/-
+  C15 — Conditional aggregation (…IF/…IFS) selects exactly the matching cells.
+
+  Statement (properties.jsonl): "COUNTIF/COUNTIFS count, and SUMIF(S)/AVERAGEIF(S)/MAXIFS/MINIFS aggregate, exactly the
+  positions whose criteria-range cells satisfy every criterion: numeric criteria and comparison prefixes compare
+  numerically (text never satisfies <,>; always satisfies <>), text criteria compare case-insensitively with ? and *
+  wildcards, and cells of any type in the range never make the function fail. The one-criterion …IFS form equals the
+  …IF form, criteria commute, "=x" and "<>x" partition the range, and over numeric data AVERAGEIFS = SUMIFS/COUNTIFS."
+
+  Model: Pycel/Model/Criteria.lean (excelutil.criteria_parser / build_wildcard_re / handle_ifs, the consumers in
+  lib/stats.py and excellib.py).  Ranges are `Arr = List (List Val)` of ANY size and content; the only hypothesis on
+  them is `IsRect` (every row as long as the first), which every Excel range satisfies.  Criteria are arbitrary `Val`s
+  (`criteriaParser` covers the whole grammar: numbers, numeric text, operator prefixes, text, wildcards, empty).
+  The operator table and splitting pattern come from Generated/Criteria.lean, regenerated from the live
+  `excelutil.OPERATORS` / `OPERATORS_RE` on every run.
+-/
+import Pycel.Lemmas.Criteria
+import Pycel.Generated.Criteria
+namespace Pycel.Criteria
+open Pycel
+
+/-! ## the operator table of the live code -/
+
+/-- `splitOp` reads every prefix of the live `OPERATORS` table as the operator the code maps it to, leaving no value -/
+theorem C15_operator_table :
+    ∀ pn ∈ Gen.criteriaOperators, splitOp pn.1.toList = (match Op.ofPyName? pn.2 with | some o => o | none => .eq, [])
+      ∧ (Op.ofPyName? pn.2).isSome := by
+  decide
+
+/-- the splitting pattern `splitOp` was written against is the live `OPERATORS_RE` -/
+theorem C15_operator_pattern : Gen.criteriaOperatorsRe = "^(?P<oper>(=|<>|<=?|>=?))?(?P<value>.*)$" := by decide
+
+/-! ## the satisfaction relation, per cell type
+    "numeric criteria and comparison prefixes compare numerically (text never satisfies <,>; always satisfies <>)" -/
+
+/-- a NUMBER against a numeric criterion `op q`: the numeric comparison -/
+theorem C15_sat_numeric (op : Op) (q x : Rat) : sat (.num op q) (.num x) = op.cmpRat x q := rfl
+
+/-- anything that is not a number (text, logical, blank, error value) against a numeric criterion: satisfied exactly
+    when the operator is `<>` — so never `<`, `<=`, `>`, `>=`, `=`, and always `<>` -/
+theorem C15_sat_numeric_nonnumber (op : Op) (q : Rat) (v : Val) (h : v.isNum = false) :
+    sat (.num op q) v = (op == .ne) := by
+  cases v <;> simp_all [sat, Val.isNum]
+
+example (q : Rat) (s : List Char) : sat (.num .lt q) (.str s) = false ∧ sat (.num .gt q) (.str s) = false
+    ∧ sat (.num .ne q) (.str s) = true :=
+  ⟨rfl, rfl, rfl⟩
+
+/-- "text criteria compare case-insensitively with ? and * wildcards": a TEXT cell against the text criterion `=p`
+    (neg = false) / `<>p` (neg = true) is decided by the wildcard matcher on the lower-cased cell; the criterion's own
+    value was lower-cased by `parseText` -/
+theorem C15_sat_text (neg : Bool) (p : List Tok) (e : Bool) (s : List Char) :
+    sat (.pat neg p e) (.str s) = (neg != matchPat p (Ops.lower s)) := rfl
+
+/-- a number or a logical never matches a text pattern (so it satisfies exactly `<>`), a blank cell matches only the
+    empty criterion: no cell type makes a text criterion fail -/
+theorem C15_sat_text_nontext (neg : Bool) (p : List Tok) (e : Bool) :
+    (∀ x, sat (.pat neg p e) (.num x) = neg) ∧ (∀ b, sat (.pat neg p e) (.bool b) = neg)
+      ∧ sat (.pat neg p e) .blank = (neg != e) :=
+  ⟨fun _ => rfl, fun _ => rfl, rfl⟩
+
+/-- case-insensitivity on both sides: the criterion text and the cell text only enter through `Ops.lower` -/
+theorem C15_sat_text_case (op : Op) (v v' s s' : List Char)
+    (hv : Ops.lower v = Ops.lower v') (hs : Ops.lower s = Ops.lower s')
+    (hn : readNum? v = none) (hn' : readNum? v' = none) :
+    sat (parseTextOp op v) (.str s) = sat (parseTextOp op v') (.str s') := by
+  unfold parseTextOp
+  rw [hn, hn', hv]
+  cases op <;> simp [sat, textOf?, hs]
+
+/-! ## wildcards: "? and * wildcards" -/
+
+/-- **C15 (wildcard matcher = declarative semantics)**, on pattern TEXT: the structural matcher run on the parsed
+    pattern accepts exactly the texts of the declarative relation `WildMatches` (Lemmas/Criteria.lean): `*` is any
+    sequence of characters, `?` is any one character, `~x` is the character x, any other character is itself, and the
+    whole text must be consumed -/
+theorem C15_wild_spec (pat s : List Char) : matchPat (parsePat pat) s = true ↔ WildMatches pat s :=
+  wildMatches_iff pat s
+
+/-- the same on parsed patterns (tokens): `Matches` -/
+theorem C15_wild_tokens (p : List Tok) (s : List Char) : matchPat p s = true ↔ Matches p s := matchPat_iff p s
+
+/-- how pattern text is read: `~x` is the literal x, `?` and `*` are the wildcards, anything else is itself -/
+theorem C15_wild_parse (x c : Char) (r : List Char) :
+    parsePat ('~' :: x :: r) = .lit x :: parsePat r
+    ∧ parsePat ('?' :: r) = .one :: parsePat r
+    ∧ parsePat ('*' :: r) = .star :: parsePat r
+    ∧ (c ≠ '~' → c ≠ '?' → c ≠ '*' → parsePat (c :: r) = .lit c :: parsePat r)
+    ∧ parsePat ['~'] = [.lit '~'] ∧ parsePat [] = [] :=
+  ⟨parsePat_esc x r, parsePat_one r, parsePat_star r, parsePat_lit c r, parsePat_tilde_end, parsePat_nil⟩
+
+/-- text without wildcard syntax matches exactly itself (the code's plain `==` path) -/
+theorem C15_wild_literal (v s : List Char) (h : hasWild v = false) : matchPat (parsePat v) s = (s == v) := by
+  rw [parsePat_plain v h, matchPat_lits]
+
+example : matchPat (parsePat "a~?c*".toList) "a?cxyz".toList = true := by decide
+example : matchPat (parsePat "a~?c*".toList) "abcxyz".toList = false := by decide
+example : WildMatches "t*t".toList "tt".toList := (C15_wild_spec _ _).1 (by decide)
+example : ¬ WildMatches "a~*".toList "ab".toList := fun h => absurd ((C15_wild_spec _ _).2 h) (by decide)
+
+/-! ## selection: "exactly the positions whose criteria-range cells satisfy every criterion" -/
+
+/-- **C15 (selects exactly)**: for criteria ranges that are `r × c` rectangles and criteria that parse, the index
+    intersection of `handle_ifs` (Counter over the chained per-pair matches, keys with count = number of pairs) is
+    exactly the list of grid positions, in row-major order, whose cell in EVERY criteria range satisfies that range's
+    criterion. -/
+theorem C15_selects_exactly (args : List (Arr × Val)) (op : Option Arr) (r c : Nat)
+    (hne : args ≠ [])
+    (hrect : ∀ av ∈ args, IsRect av.1) (hsize : ∀ av ∈ args, size av.1 = (r, c))
+    (hop : ∀ o, op = some o → size o = (r, c))
+    (pairs : List (Arr × Crit)) (hparse : parseAll args = some pairs) :
+    handleIfs args op = .ok ((grid r c).filter fun p => pairs.all fun ac => sat ac.2 (cell ac.1 p)) :=
+  handleIfs_selects args op r c hne hrect hsize hop pairs hparse
+
+/-- membership form: a position is selected iff it lies in the range and every criterion holds of its cell -/
+theorem C15_selects_mem (args : List (Arr × Val)) (op : Option Arr) (r c : Nat)
+    (hne : args ≠ [])
+    (hrect : ∀ av ∈ args, IsRect av.1) (hsize : ∀ av ∈ args, size av.1 = (r, c))
+    (hop : ∀ o, op = some o → size o = (r, c))
+    (pairs : List (Arr × Crit)) (hparse : parseAll args = some pairs) :
+    ∃ coords, handleIfs args op = .ok coords ∧ coords.Nodup ∧
+      ∀ p : Idx, p ∈ coords ↔ (p.1 < r ∧ p.2 < c) ∧ ∀ ac ∈ pairs, sat ac.2 (cell ac.1 p) = true := by
+  refine ⟨_, C15_selects_exactly args op r c hne hrect hsize hop pairs hparse,
+    (grid_nodup r c).sublist List.filter_sublist, ?_⟩
+  intro p
+  simp [List.mem_filter, mem_grid]
+
+/-- ranges of unequal size (criteria ranges among themselves, or against the aggregated range) give `#VALUE!` -/
+theorem C15_size_mismatch (a0 : Arr) (v0 : Val) (rest : List (Arr × Val)) (op : Option Arr)
+    (h : (∃ av ∈ rest, size av.1 ≠ size a0) ∨ (∃ o, op = some o ∧ size o ≠ size a0)) :
+    handleIfs ((a0, v0) :: rest) op = .error .value :=
+  handleIfs_size_mismatch a0 v0 rest op h
+
+/-! ## the consumers on top of the selection -/
+
+/-- COUNTIF counts the positions of the range whose cell satisfies the criterion -/
+theorem C15_countif_spec (rng : Arr) (v : Val) (k : Crit) (hk : criteriaParser v = some k) :
+    countif rng v = .ok (.num (((pos rng).filter fun p => sat k (cell rng p)).length : Nat)) := by
+  simp [countif, hk, findIdx]
+
+/-- COUNTIFS counts exactly the positions satisfying every criterion -/
+theorem C15_countifs_spec (args : List (Arr × Val)) (r c : Nat) (hne : args ≠ [])
+    (hrect : ∀ av ∈ args, IsRect av.1) (hsize : ∀ av ∈ args, size av.1 = (r, c))
+    (pairs : List (Arr × Crit)) (hparse : parseAll args = some pairs) :
+    countifs args
+      = .ok (.num ((((grid r c).filter fun p => pairs.all fun ac => sat ac.2 (cell ac.1 p)).length : Nat) : Rat)) := by
+  unfold countifs
+  rw [C15_selects_exactly args none r c hne hrect hsize (by simp) pairs hparse]
+
+/-- SUMIFS / AVERAGEIFS / MAXIFS / MINIFS aggregate exactly the cells of the aggregated range at the positions
+    satisfying every criterion: the first error value among them, else `f` of the numeric ones -/
+theorem C15_aggregate_spec (f : List Val → Val) (rng : Arr) (args : List (Arr × Val)) (r c : Nat) (hne : args ≠ [])
+    (hrect : ∀ av ∈ args, IsRect av.1) (hsize : ∀ av ∈ args, size av.1 = (r, c)) (hrng : size rng = (r, c))
+    (pairs : List (Arr × Crit)) (hparse : parseAll args = some pairs) :
+    aggregate f rng args =
+      let sel := ((grid r c).filter fun p => pairs.all fun ac => sat ac.2 (cell ac.1 p)).map (cell rng)
+      .ok (match firstErr sel with
+           | some e => .err e
+           | none => f (kept sel)) := by
+  unfold aggregate
+  rw [C15_selects_exactly args (some rng) r c hne hrect hsize (by intro o ho; cases ho; exact hrng) pairs hparse]
+  simp only [selected]
+  cases firstErr _ <;> rfl
+
+/-! ## "The one-criterion …IFS form equals the …IF form" -/
+
+/-- COUNTIFS(rng, crit) = COUNTIF(rng, crit) (two different code paths); SUMIFS / AVERAGEIFS with one pair are SUMIF /
+    AVERAGEIF by definition in the code and in the model -/
+theorem C15_ifs1_eq_if (rng : Arr) (v : Val) (hrect : IsRect rng) :
+    countifs [(rng, v)] = countif rng v
+    ∧ (∀ s, sumifs s [(rng, v)] = sumif rng v (some s)) ∧ sumifs rng [(rng, v)] = sumif rng v none
+    ∧ (∀ s, averageifs s [(rng, v)] = averageif rng v (some s))
+    ∧ averageifs rng [(rng, v)] = averageif rng v none := by
+  refine ⟨?_, fun _ => rfl, rfl, fun _ => rfl, rfl⟩
+  cases hk : criteriaParser v with
+  | none => simp [countifs, countif, handleIfs, parseAll, hk]
+  | some k =>
+    have hp : parseAll [(rng, v)] = some [(rng, k)] := by simp [parseAll, hk]
+    rw [C15_countifs_spec [(rng, v)] (size rng).1 (size rng).2 (by simp) (by simpa using hrect) (by simp)
+      [(rng, k)] hp, C15_countif_spec rng v k hk, pos_of_isRect rng hrect]
+    simp
+
+/-! ## "criteria commute" -/
+
+/-- **C15 (criteria commute)**: permuting the (range, criterion) pairs in any way leaves the selection — hence every
+    …IFS function — unchanged. -/
+theorem C15_commute (args args' : List (Arr × Val)) (op : Option Arr) (hperm : args.Perm args')
+    (hrect : ∀ av ∈ args, IsRect av.1) :
+    handleIfs args op = handleIfs args' op
+    ∧ countifs args = countifs args'
+    ∧ (∀ rng, sumifs rng args = sumifs rng args' ∧ averageifs rng args = averageifs rng args'
+        ∧ maxifs rng args = maxifs rng args' ∧ minifs rng args = minifs rng args') := by
+  have key : ∀ op, handleIfs args op = handleIfs args' op := fun op => handleIfs_perm args args' op hperm hrect
+  refine ⟨key op, by simp [countifs, key none], fun rng => ?_⟩
+  simp [sumifs, averageifs, maxifs, minifs, aggregate, key (some rng)]
+
+/-! ## "'=x' and '<>x' partition the range" -/
+
+/-- for every criteria text x and every cell value, exactly one of "=x" and "<>x" is satisfied -/
+theorem C15_partition_cell (x : List Char) (v : Val) :
+    sat (parseText ('=' :: x)) v = !sat (parseText ('<' :: '>' :: x)) v := by
+  have h1 : parseText ('=' :: x) = parseTextOp .eq x := rfl
+  have h2 : parseText ('<' :: '>' :: x) = parseTextOp .ne x := rfl
+  rw [h1, h2]
+  unfold parseTextOp
+  cases readNum? x with
+  | some q =>
+    cases v <;> simp [sat, Op.cmpRat, bne]
+  | none =>
+    simp only [sat]
+    cases textOf? v with
+    | some s =>
+      dsimp only
+      cases matchPat (parsePat (Ops.lower x)) (Ops.lower s) <;> rfl
+    | none => cases v <;> dsimp only <;> cases (Ops.lower x).isEmpty <;> rfl
+
+/-- **C15 (partition)**: every position of the range is counted by exactly one of COUNTIF(rng,"=x") and
+    COUNTIF(rng,"<>x"); the two counts add up to the number of cells -/
+theorem C15_partition (rng : Arr) (x : List Char) :
+    (∀ p ∈ pos rng, (p ∈ findIdx rng (parseText ('=' :: x))) ≠ (p ∈ findIdx rng (parseText ('<' :: '>' :: x))))
+    ∧ (findIdx rng (parseText ('=' :: x))).length + (findIdx rng (parseText ('<' :: '>' :: x))).length
+        = (pos rng).length := by
+  constructor
+  · intro p hp
+    simp only [findIdx, List.mem_filter, hp, true_and, C15_partition_cell x (cell rng p)]
+    cases sat (parseText ('<' :: '>' :: x)) (cell rng p) <;> simp
+  · have : (findIdx rng (parseText ('=' :: x)))
+        = (pos rng).filter fun p => !sat (parseText ('<' :: '>' :: x)) (cell rng p) := by
+      unfold findIdx
+      apply List.filter_congr
+      intro p _
+      exact C15_partition_cell x (cell rng p)
+    rw [this, Nat.add_comm]
+    exact length_filter_add_not (pos rng) fun p => sat (parseText ('<' :: '>' :: x)) (cell rng p)
+
+example : sat (parseText "=a*".toList) (.str "Abc".toList) = true
+    ∧ sat (parseText "<>a*".toList) (.str "Abc".toList) = false := by decide
+
+/-! ## "over numeric data AVERAGEIFS = SUMIFS/COUNTIFS" -/
+
+/-- **C15 (average)**: when the selected cells of the aggregated range are numbers, COUNTIFS is the number n of
+    selected positions, SUMIFS their sum s, and AVERAGEIFS is s / n (`#DIV/0!` when nothing is selected). -/
+theorem C15_avg (rng : Arr) (args : List (Arr × Val)) (coords : List Idx)
+    (h : handleIfs args (some rng) = .ok coords) (hnum : ∀ p ∈ coords, ∃ q, cell rng p = .num q) :
+    let s := rsum (coords.map fun p => valNum (cell rng p))
+    countifs args = .ok (.num (coords.length : Nat))
+    ∧ sumifs rng args = .ok (.num s)
+    ∧ averageifs rng args = .ok (if coords.length = 0 then .err .div0 else .num (s / (coords.length : Nat))) := by
+  have hsel : ∀ v ∈ selected rng coords, ∃ q, v = .num q := by
+    intro v hv
+    simp only [selected, List.mem_map] at hv
+    obtain ⟨p, hp, rfl⟩ := hv
+    exact hnum p hp
+  obtain ⟨he, hk⟩ := firstErr_nums _ hsel
+  refine ⟨?_, ?_, ?_⟩
+  · simp [countifs, handleIfs_none_of_some args rng coords h]
+  · simp only [sumifs, aggregate, h, he, hk, sumOf]
+    simp [selected, List.map_map, Function.comp_def]
+  · simp only [averageifs, aggregate, h, he, hk, avgOf]
+    cases coords with
+    | nil => simp [selected]
+    | cons p ps => simp [selected, List.map_map, Function.comp_def]
+
+example : averageifs [[.num 1], [.num 2], [.num 6]] [([[.num 1], [.num 5], [.num 7]], .str ">2".toList)]
+    = .ok (.num 4) := by decide +kernel
+
+/-! ## "cells of any type in the range never make the function fail" -/
+
+/-- a value the functions may return: a number or an Excel error value -/
+def IsNumOrErr (v : Val) : Prop := (∃ q, v = .num q) ∨ (∃ e, v = .err e)
+
+/-- … or, for MAXIFS / MINIFS only, a logical taken from the aggregated range (`keep_bools=True` in the code) -/
+def IsNumErrOrBool (v : Val) : Prop := IsNumOrErr v ∨ ∃ b, v = .bool b
+
+/-- **C15 (totality)**: whatever the cells of the criteria ranges and of the aggregated range are (numbers, text,
+    logicals, blanks, error values, in ranges of any size and shape), with at least one pair and criteria that are not
+    blank cells, no function raises: each returns a number or an Excel error value (MAXIFS/MINIFS possibly a logical
+    of the aggregated range).  MAXIFS/MINIFS do not raise even on a blank criterion. -/
+theorem C15_total (args : List (Arr × Val)) (hne : args ≠ []) (hcrit : ∀ av ∈ args, av.2 ≠ .blank) :
+    (∀ rng v, v ≠ .blank → ∃ r, countif rng v = .ok r ∧ IsNumOrErr r)
+    ∧ (∃ r, countifs args = .ok r ∧ IsNumOrErr r)
+    ∧ (∀ rng, (∃ r, sumifs rng args = .ok r ∧ IsNumOrErr r) ∧ (∃ r, averageifs rng args = .ok r ∧ IsNumOrErr r)
+        ∧ (∃ r, maxifs rng args = .ok r ∧ IsNumErrOrBool r) ∧ (∃ r, minifs rng args = .ok r ∧ IsNumErrOrBool r)) := by
+  have hparse : ∃ pairs, parseAll args = some pairs := by
+    have : (parseAll args).isSome = true := by
+      rw [parseAll_isSome, List.all_eq_true]
+      intro av hav
+      rw [criteriaParser_isSome]
+      simpa using hcrit av hav
+    exact Option.isSome_iff_exists.1 this
+  obtain ⟨pairs, hparse⟩ := hparse
+  have hh : ∀ op, handleIfs args op = .error .value ∨ ∃ coords, handleIfs args op = .ok coords := by
+    intro op
+    unfold handleIfs
+    cases args with
+    | nil => exact absurd rfl hne
+    | cons av rest =>
+      obtain ⟨a0, v0⟩ := av
+      by_cases c1 : (((a0, v0) :: rest).all fun av => size av.1 == size a0) = true
+      · cases op with
+        | none => right; exact ⟨intersect pairs, by simp [c1, hparse]⟩
+        | some o =>
+          by_cases c2 : (((a0, v0) :: rest).all fun av => size o == size av.1) = true
+          · right; exact ⟨intersect pairs, by simp [c1, c2, hparse]⟩
+          · left; simp [c1, c2]
+      · left; simp [c1]
+  have hagg : ∀ (f : List Val → Val) (P : Val → Prop) rng, (∀ e, P (.err e)) → (∀ l, P (f (kept l))) →
+      ∃ r, aggregate f rng args = .ok r ∧ P r := by
+    intro f P rng hPe hPf
+    unfold aggregate
+    rcases hh (some rng) with h | ⟨coords, h⟩
+    · rw [h]; exact ⟨_, rfl, hPe _⟩
+    · rw [h]
+      simp only
+      cases firstErr (selected rng coords) with
+      | some e => exact ⟨_, rfl, hPe e⟩
+      | none => exact ⟨_, rfl, hPf _⟩
+  refine ⟨?_, ?_, fun rng => ⟨?_, ?_, ?_, ?_⟩⟩
+  · intro rng v hv
+    cases v with
+    | blank => exact absurd rfl hv
+    | num q => exact ⟨_, rfl, Or.inl ⟨_, rfl⟩⟩
+    | str s => exact ⟨_, rfl, Or.inl ⟨_, rfl⟩⟩
+    | bool b => exact ⟨_, rfl, Or.inl ⟨_, rfl⟩⟩
+    | err e => exact ⟨_, rfl, Or.inl ⟨_, rfl⟩⟩
+  · unfold countifs
+    rcases hh none with h | ⟨coords, h⟩
+    · rw [h]; exact ⟨_, rfl, Or.inr ⟨_, rfl⟩⟩
+    · rw [h]; exact ⟨_, rfl, Or.inl ⟨_, rfl⟩⟩
+  · exact hagg sumOf IsNumOrErr rng (fun e => Or.inr ⟨e, rfl⟩) (fun l => Or.inl ⟨_, rfl⟩)
+  · refine hagg avgOf IsNumOrErr rng (fun e => Or.inr ⟨e, rfl⟩) (fun l => ?_)
+    unfold avgOf
+    split
+    · exact Or.inr ⟨_, rfl⟩
+    · exact Or.inl ⟨_, rfl⟩
+  · obtain ⟨r, hr, hP⟩ := hagg maxOf IsNumErrOrBool rng (fun e => Or.inl (Or.inr ⟨e, rfl⟩)) (fun l => by
+      cases hk : kept l with
+      | nil => exact Or.inl (Or.inl ⟨0, rfl⟩)
+      | cons x xs =>
+        have hm : pyMax x xs ∈ kept l := by rw [hk]; exact pyMax_mem x xs
+        rcases mem_kept l _ hm with ⟨q, hq⟩ | ⟨b, hb⟩
+        · exact Or.inl (Or.inl ⟨q, hq⟩)
+        · exact Or.inr ⟨b, hb⟩)
+    exact ⟨r, by simp [maxifs, hr, catchValueError], hP⟩
+  · obtain ⟨r, hr, hP⟩ := hagg minOf IsNumErrOrBool rng (fun e => Or.inl (Or.inr ⟨e, rfl⟩)) (fun l => by
+      cases hk : kept l with
+      | nil => exact Or.inl (Or.inl ⟨0, rfl⟩)
+      | cons x xs =>
+        have hm : pyMin x xs ∈ kept l := by rw [hk]; exact pyMin_mem x xs
+        rcases mem_kept l _ hm with ⟨q, hq⟩ | ⟨b, hb⟩
+        · exact Or.inl (Or.inl ⟨q, hq⟩)
+        · exact Or.inr ⟨b, hb⟩)
+    exact ⟨r, by simp [minifs, hr, catchValueError], hP⟩
+
+/-- non-vacuity: a mixed range (number, numeric text, text, logical, blank, error value) against a wildcard, a numeric
+    and an operator criterion -/
+example : countif [[.num 1, .str "3".toList, .str "abc".toList], [.bool true, .blank, .err .na]] (.str "a*".toList)
+    = .ok (.num 1) := by decide +kernel
+example : countifs [([[.num 1], [.bool true], [.str "x".toList]], .num 1)] = .ok (.num 1) := by decide +kernel
+example : sumif [[.num 1], [.num 2], [.num 3]] (.str ">0".toList) (some [[.err .na], [.num 2], [.num 3]])
+    = .ok (.err .na) := by decide +kernel
+
+end Pycel.Criteria
